@@ -1,7 +1,7 @@
 (* C17 — remote commands are executed once, in order; status is truthful.
    Only statements; proofs in Proofs/ThreadsQueue.v. *)
 From Coq Require Import List Bool Arith.
-From Pamiq Require Import Model.Threads Check.Sys Proofs.ThreadsQueue Proofs.StatusWindow.
+From Pamiq Require Import Model.Threads Check.Sys Proofs.ThreadsQueue Proofs.StatusWindow Proofs.ThreadsDrain.
 Import ListNotations.
 
 (* For any number of threads, any queue size (0 = unbounded) and EVERY accepted trace - every sequence of
@@ -12,6 +12,15 @@ Theorem C17_monitor_holds_on_model : forall n kind max_attempts qmax with_web tr
   run n kind max_attempts qmax with_web init tr = Some s -> C17_ok tr = true.
 Proof. exact C17_monitor_holds. Qed.
 Print Assumptions C17_monitor_holds_on_model.
+
+(* ... and an accepted command is taken soon: with the web API, for any number of threads, attempt limit and queue size,
+   on EVERY accepted trace no accepted command is still waiting when the second control tick after its acceptance begins
+   (every tick drains the queue until it is seen empty).  So a command the API answered 200 cannot be left behind while
+   the control loop keeps ticking. *)
+Theorem C17_accepted_commands_are_taken_soon : forall n kind max_attempts qmax tr s,
+  run n kind max_attempts qmax true init tr = Some s -> C17_live tr = true.
+Proof. exact C17_live_holds. Qed.
+Print Assumptions C17_accepted_commands_are_taken_soon.
 
 (* the status table, for every combination of controller and thread flags and any number of threads *)
 Theorem C17_status_paused_iff : forall sh rs flags,
